@@ -3,7 +3,15 @@
   overwrites (except the documented self-reference placeholder), recurses into dicts present on
   both sides, appends new keys in order, and is idempotent; `_clean` is the identity on data
   without placeholder keys.
-  Model: `step`/`dstep`, `mergeD`, `SD.clean` (Model/Dict.lean).
+  Model: `step`/`dstep`, `mergeD`, `SD.clean`, `Tbl.merge`/`Tbl.update` (Model/Dict.lean).
+
+  Layout: specification vocabulary, helper lemmas, then the property theorems
+  A (`clean_id`), B (`step_refines`, `step_preserves_*`, `run_refines*`), C (`merge_*`, `tbl_*`,
+  `merge_tables`, `update_tables`), D (non-vacuity examples, necessity of the added hypotheses).
+
+  Standing hypothesis added to A and B: `NodupKeysV (.dict s.data)` (unique keys in every dict, the
+  model's `Val.WF`; true of every Python value).  The association-list model admits repeated
+  keys and on those `_clean` is *not* the identity (`clean_id_needs_nodup`).
 -/
 import DictIO.Model.Dict
 import DictIO.Lemmas.Assoc
@@ -11,7 +19,92 @@ import DictIO.Lemmas.Assoc
 namespace DictIO.C07
 open DictIO
 
+/-! ## specification vocabulary (the definitions the statements are written with) -/
+
+/-- the keys `_clean_data` looks at: BLOCKCOMMENT / INCLUDE / LINECOMMENT followed by six digits -/
+def isPhKey : Key → Bool
+  | .str s => containsPh kwBlock s || containsPh kwIncl s || containsPh kwLine s
+  | .int _ => false
+
+mutual
+  /-- no placeholder key at any dict level reachable through dict nesting (lists are opaque) -/
+  def NoPhV : Val → Prop
+    | .dict es => NoPhEs es
+    | _ => True
+  def NoPhEs : Entries → Prop
+    | [] => True
+    | (k, v) :: es => isPhKey k = false ∧ NoPhV v ∧ NoPhEs es
+end
+
+/-- the operations that builtin `dict` has too (everything but `merge`) -/
+def _root_.DictIO.Op.isDictOp : Op → Bool
+  | .merge _ => false
+  | _ => true
+
+/-- no dict handed to the operation has a placeholder key at any dict level, and no key that is
+    set is a placeholder key -/
+def _root_.DictIO.Op.NoPh : Op → Prop
+  | .setitem k v => isPhKey k = false ∧ NoPhV v
+  | .setdefault k v => isPhKey k = false ∧ NoPhV v
+  | .update a => NoPhEs a.data
+  | .ior a => NoPhEs a.data
+  | .or a => NoPhEs a.data
+  | .merge a => NoPhEs a.data
+  | .ror o => NoPhEs o
+  | .construct o => NoPhEs o
+  | _ => True
+
+/-- every dict *inside* the arguments has unique keys (true of every Python value).  The item
+    sequence given to `update`/`|`/`merge`/the constructor may itself repeat a key (a pair list);
+    the left operand of `o | s` is a dict. -/
+def _root_.DictIO.Op.NodupKeys : Op → Prop
+  | .setitem _ v => NodupKeysV v
+  | .setdefault _ v => NodupKeysV v
+  | .update a => NodupKeysEs a.data
+  | .ior a => NodupKeysEs a.data
+  | .or a => NodupKeysEs a.data
+  | .merge a => NodupKeysEs a.data
+  | .ror o => NodupKeysV (.dict o)
+  | .construct o => NodupKeysEs o
+  | _ => True
+
+/-- the trace of a program on an `SDict`: data and result after every operation -/
+def runS : SD → List Op → List (Entries × Out)
+  | _, [] => []
+  | s, op :: ops => ((step s op).1.data, (step s op).2) :: runS (step s op).1 ops
+
+/-- the trace of the same program on a builtin `dict` -/
+def runD : Entries → List Op → List (Entries × Out)
+  | _, [] => []
+  | d, op :: ops => dstep d op :: runD (dstep d op).1 ops
+
+/-- the value reached by following a key path through nested dicts (not through lists) -/
+def getV : Val → List Key → Option Val
+  | v, [] => some v
+  | .dict es, k :: p => match lookup k es with
+    | some w => getV w p
+    | none => none
+  | _, _ :: _ => none
+
+def getD (es : Entries) (p : List Key) : Option Val := getV (.dict es) p
+
 /-! ## helper lemmas -/
+
+/-! #### helper definitions: one step of the merge loop, and the value it leaves at a key -/
+
+/-- what `_recursive_merge` does with one `(key, value)` item of `other` -/
+def mstep (top : Bool) (exprs : Tbl ExprEntry) (t : Entries) (k : Key) (v : Val) : Entries :=
+  match lookup k t, v with
+  | some (.dict td), .dict od => setKey k (.dict (mergeD false exprs td od)) t
+  | some tv, _ => if top && selfRef exprs k tv then setKey k v t else t
+  | none, _ => t ++ [(k, v)]
+
+/-- value of key `k` after merging an item `(k, bv)` into a dict where `k` has value `av` -/
+def mergeVal (top : Bool) (exprs : Tbl ExprEntry) (k : Key) : Option Val → Option Val → Option Val
+  | some (.dict ad), some (.dict bd) => some (.dict (mergeD false exprs ad bd))
+  | some av, some bv => if top && selfRef exprs k av then some bv else some av
+  | some av, none => some av
+  | none, bv => bv
 
 /-! #### association lists -/
 
@@ -119,23 +212,7 @@ theorem nodupKeysEs_iff : ∀ {es : Entries}, NodupKeysEs es ↔ ∀ e ∈ es, N
   | [] => by simp [NodupKeysEs]
   | (k, v) :: es => by simp [NodupKeysEs, nodupKeysEs_iff (es := es)]
 
-
-/-! ## A. `_clean` is the identity without placeholder keys -/
-
-/-- the keys `_clean_data` looks at: BLOCKCOMMENT / INCLUDE / LINECOMMENT followed by six digits -/
-def isPhKey : Key → Bool
-  | .str s => containsPh kwBlock s || containsPh kwIncl s || containsPh kwLine s
-  | .int _ => false
-
-mutual
-  /-- no placeholder key at any dict level reachable through dict nesting (lists are opaque) -/
-  def NoPhV : Val → Prop
-    | .dict es => NoPhEs es
-    | _ => True
-  def NoPhEs : Entries → Prop
-    | [] => True
-    | (k, v) :: es => isPhKey k = false ∧ NoPhV v ∧ NoPhEs es
-end
+/-! #### `_clean` on placeholder-free data -/
 
 theorem noPhEs_iff : ∀ {es : Entries}, NoPhEs es ↔ ∀ e ∈ es, isPhKey e.1 = false ∧ NoPhV e.2
   | [] => by simp [NoPhEs]
@@ -197,33 +274,39 @@ theorem cleanRec_id : ∀ (fuel : Nat) (s : SD) (lvl : Entries),
         simp only [List.foldl_cons, cleanRec_id fuel s sub hsubn hsubp, setKey_of_mem_nodup hn.1 hmem]
         exact hrest
 
-/-- **A.** `_clean` changes nothing (data and all four tables) when no key is a comment/include
-    placeholder.  Key uniqueness at every dict level (`NodupKeysV`, which every Python value
-    satisfies) is needed: see `clean_id_needs_nodup`. -/
-theorem clean_id (s : SD) (hn : NodupKeysV (.dict s.data)) (hp : NoPhEs s.data) : s.clean = s := by
-  simp only [SD.clean, cleanRec_id _ s s.data hn hp]
+/-- the tables are untouched by `_clean` when no placeholder key is present — this half needs no
+    key uniqueness -/
+theorem cleanRec_fst : ∀ (fuel : Nat) (s : SD) (lvl : Entries), NoPhEs lvl → (cleanRec fuel s lvl).1 = s
+  | 0, _, _, _ => rfl
+  | fuel + 1, s, lvl, hp => by
+    have hkeys : ∀ k ∈ keys lvl, isPhKey k = false := by
+      intro k hk
+      obtain ⟨e, he, rfl⟩ := List.mem_map.mp hk
+      exact (noPhEs_iff.mp hp e he).1
+    simp only [cleanRec, cleanLevel_id s lvl hkeys]
+    suffices H : ∀ (l : Entries) (acc : SD × Entries), (∀ e ∈ l, e ∈ lvl) → acc.1 = s →
+        (l.foldl (fun (acc : SD × Entries) e =>
+          match e.2 with
+          | .dict sub => ((cleanRec fuel acc.1 sub).1, setKey e.1 (.dict (cleanRec fuel acc.1 sub).2) acc.2)
+          | _ => acc) acc).1 = s from H lvl (s, lvl) (fun _ h => h) rfl
+    intro l
+    induction l with
+    | nil => intro acc _ h; exact h
+    | cons e l ih =>
+      intro acc hsub hacc
+      obtain ⟨k, v⟩ := e
+      have hmem : (k, v) ∈ lvl := hsub _ List.mem_cons_self
+      simp only [List.foldl_cons]
+      apply ih _ (fun e he => hsub e (List.mem_cons_of_mem _ he))
+      cases v with
+      | leaf x => exact hacc
+      | list xs => exact hacc
+      | dict sub =>
+        have hsubp : NoPhEs sub := (noPhEs_iff.mp hp _ hmem).2
+        simp only [cleanRec_fst fuel acc.1 sub hsubp]
+        exact hacc
 
-/-- the association-list model admits duplicate keys, and on those `_clean`'s write-back
-    `data[key] = cleaned sub-dict` hits the first occurrence: without `NodupKeysV` the unrestricted
-    statement `NoPhEs s.data → s.clean = s` is false -/
-theorem clean_id_needs_nodup :
-    ¬ ∀ s : SD, NoPhEs s.data → s.clean = s := by
-  intro h
-  have := h { data := [(.int 1, .dict []), (.int 1, .dict [(.int 2, .leaf .none)])] }
-    (by simp [NoPhEs, NoPhV, isPhKey])
-  have := congrArg SD.data this
-  revert this
-  decide
-
-
-/-! ## merge: one step, and an induction principle (helper section) -/
-
-/-- what `_recursive_merge` does with one `(key, value)` item of `other` -/
-def mstep (top : Bool) (exprs : Tbl ExprEntry) (t : Entries) (k : Key) (v : Val) : Entries :=
-  match lookup k t, v with
-  | some (.dict td), .dict od => setKey k (.dict (mergeD false exprs td od)) t
-  | some tv, _ => if top && selfRef exprs k tv then setKey k v t else t
-  | none, _ => t ++ [(k, v)]
+/-! #### merge: unfolding, an induction principle, the effect of one step -/
 
 theorem mergeD_nil (top : Bool) (exprs : Tbl ExprEntry) (t : Entries) : mergeD top exprs t [] = t := by
   rw [mergeD]
@@ -246,14 +329,6 @@ termination_by _ _ o => sizeOf o
 decreasing_by
   · subst_vars; simp; omega
   · simp; omega
-
-
-/-- value of key `k` after merging an item `(k, bv)` into a dict where `k` has value `av` -/
-def mergeVal (top : Bool) (exprs : Tbl ExprEntry) (k : Key) : Option Val → Option Val → Option Val
-  | some (.dict ad), some (.dict bd) => some (.dict (mergeD false exprs ad bd))
-  | some av, some bv => if top && selfRef exprs k av then some bv else some av
-  | some av, none => some av
-  | none, bv => bv
 
 theorem selfRef_dict (exprs : Tbl ExprEntry) (k : Key) (es : Entries) : selfRef exprs k (.dict es) = false := by
   cases k <;> rfl
@@ -347,8 +422,46 @@ theorem keys_mstep (top : Bool) (exprs : Tbl ExprEntry) (t : Entries) (k : Key) 
   · rename_i _ h
     simp [hasKey, h, keys]
 
+theorem merge_lookup_mergeVal (top : Bool) (exprs : Tbl ExprEntry) (k : Key) : ∀ (b a : Entries), (keys b).Nodup →
+    lookup k (mergeD top exprs a b) = mergeVal top exprs k (lookup k a) (lookup k b)
+  | [], a, _ => by rw [mergeD_nil]; simp only [lookup]; rw [mergeVal_none_right]
+  | (kb, vb) :: b, a, hb => by
+    have hb' : kb ∉ keys b ∧ (keys b).Nodup := List.nodup_cons.mp hb
+    rw [mergeD_cons, merge_lookup_mergeVal top exprs k b _ hb'.2, lookup_mstep]
+    by_cases hk : kb = k
+    · subst hk
+      have : lookup kb b = none := lookup_eq_none_iff.mpr hb'.1
+      simp only [if_true, this, mergeVal_none_right, lookup]
+    · simp only [hk, if_false, lookup]
 
-/-! #### preservation of the two invariants by the dict primitives (helper section) -/
+/-- merging `o` into a `t` that already "absorbs" every item of `o` changes nothing -/
+theorem mergeD_absorb (top : Bool) (exprs : Tbl ExprEntry) : ∀ (o t : Entries),
+    (∀ e ∈ o, ∃ tv, lookup e.1 t = some tv ∧
+      (∀ td od, tv = .dict td → e.2 = .dict od → mergeD false exprs td od = td) ∧
+      (top = true → selfRef exprs e.1 tv = true → tv = e.2)) →
+    mergeD top exprs t o = t
+  | [], t, _ => mergeD_nil top exprs t
+  | (k, v) :: o, t, h => by
+    obtain ⟨tv, hl, hdd, hsr⟩ := h (k, v) List.mem_cons_self
+    dsimp only at hl hdd hsr
+    have hstep : mstep top exprs t k v = t := by
+      by_cases hnd : tv.isDict = false ∨ v.isDict = false
+      · rw [mstep_some top exprs hl hnd]
+        split
+        · rename_i hc
+          simp only [Bool.and_eq_true] at hc
+          rw [← hsr hc.1 hc.2]; exact setKey_lookup_self hl
+        · rfl
+      · cases tv with
+        | dict td =>
+          cases v with
+          | dict od => rw [mstep_dict_dict top exprs od hl, hdd td od rfl rfl]; exact setKey_lookup_self hl
+          | _ => simp [Val.isDict] at hnd
+        | _ => simp [Val.isDict] at hnd
+    rw [mergeD_cons, hstep]
+    exact mergeD_absorb top exprs o t fun e he => h e (List.mem_cons_of_mem _ he)
+
+/-! #### preservation of the two invariants by the dict primitives -/
 
 theorem noPhEs_setKey {k : Key} {v : Val} {es : Entries} (h : NoPhEs es) (hk : isPhKey k = false) (hv : NoPhV v) :
     NoPhEs (setKey k v es) := by
@@ -457,6 +570,71 @@ theorem nodupV_mergeD (exprs : Tbl ExprEntry) : ∀ (top : Bool) (t o : Entries)
           | _ => simp [Val.isDict] at hnd
         | _ => simp [Val.isDict] at hnd
 
+/-! #### key paths -/
+
+theorem getD_cons (es : Entries) (k : Key) (p : List Key) :
+    getD es (k :: p) = match lookup k es with | some w => getV w p | none => none := rfl
+
+theorem getV_nondict_cons {w : Val} (hw : w.isDict = false) (k : Key) (p : List Key) : getV w (k :: p) = none := by
+  cases w with
+  | dict es => simp [Val.isDict] at hw
+  | _ => rfl
+
+/-! #### side tables -/
+
+theorem tbl_get_append {α} (i j : Nat) (a : α) : ∀ t : Tbl α,
+    Tbl.get? i (t ++ [(j, a)]) = (Tbl.get? i t).or (if j = i then some a else none)
+  | [] => by simp [Tbl.get?]
+  | (j0, a0) :: t => by
+    by_cases h : j0 = i <;> simp [Tbl.get?, h, tbl_get_append i j a t]
+
+theorem tbl_get_set {α} (i j : Nat) (a : α) : ∀ t : Tbl α,
+    Tbl.get? i (Tbl.set j a t) = if j = i then some a else Tbl.get? i t
+  | [] => by simp [Tbl.get?, Tbl.set]
+  | (j0, a0) :: t => by
+    by_cases h0 : j0 = j
+    · subst h0; by_cases h : j0 = i <;> simp [Tbl.get?, Tbl.set, h]
+    · by_cases h : j0 = i
+      · subst h
+        have : ¬ j = j0 := fun e => h0 e.symm
+        simp [Tbl.get?, Tbl.set, h0, this]
+      · simp [Tbl.get?, Tbl.set, h0, h, tbl_get_set i j a t]
+
+theorem tbl_merge_cons {α} (t : Tbl α) (e : Nat × α) (o : Tbl α) :
+    Tbl.merge t (e :: o) = Tbl.merge (if (Tbl.get? e.1 t).isSome then t else t ++ [e]) o := rfl
+
+theorem tbl_update_cons {α} (t : Tbl α) (e : Nat × α) (o : Tbl α) :
+    Tbl.update t (e :: o) = Tbl.update (Tbl.set e.1 e.2 t) o := rfl
+
+/-! ## A. `_clean` is the identity without placeholder keys -/
+
+/-- **A.** `_clean` changes nothing (data and all four tables) when no key is a comment/include
+    placeholder.  Key uniqueness at every dict level (`NodupKeysV`, which every Python value
+    satisfies) is needed: see `clean_id_needs_nodup`. -/
+theorem clean_id (s : SD) (hn : NodupKeysV (.dict s.data)) (hp : NoPhEs s.data) : s.clean = s := by
+  simp only [SD.clean, cleanRec_id _ s s.data hn hp]
+
+/-- the association-list model admits duplicate keys, and on those `_clean`'s write-back
+    `data[key] = cleaned sub-dict` hits the first occurrence: without `NodupKeysV` the unrestricted
+    statement `NoPhEs s.data → s.clean = s` is false -/
+theorem clean_id_needs_nodup :
+    ¬ ∀ s : SD, NoPhEs s.data → s.clean = s := by
+  intro h
+  have := h { data := [(.int 1, .dict []), (.int 1, .dict [(.int 2, .leaf .none)])] }
+    (by simp [NoPhEs, NoPhV, isPhKey])
+  have := congrArg SD.data this
+  revert this
+  decide
+
+theorem clean_tables (s : SD) (hp : NoPhEs s.data) :
+    s.clean.exprs = s.exprs ∧ s.clean.lineC = s.lineC ∧ s.clean.blockC = s.blockC ∧ s.clean.incl = s.incl := by
+  have h := cleanRec_fst (depthV (.dict s.data) + 1) s s.data hp
+  have : s.clean = { (cleanRec (depthV (.dict s.data) + 1) s s.data).1 with
+      data := (cleanRec (depthV (.dict s.data) + 1) s s.data).2 } := rfl
+  rw [this, h]
+  exact ⟨rfl, rfl, rfl, rfl⟩
+
+/-! #### consequence for the operations that run `_clean` -/
 
 theorem postUpdate_data (s : SD) (a : Arg) : (s.postUpdate a).data = s.data := by cases a <;> rfl
 theorem postMerge_data (s : SD) (a : Arg) : (s.postMerge a).data = s.data := by cases a <;> rfl
@@ -484,38 +662,6 @@ theorem ror_eq (s : SD) (o : Entries) (hn : NodupKeysV (.dict (updateD o s.data)
 
 /-! ## B. refinement to builtin `dict` -/
 
-/-- the operations that builtin `dict` has too (everything but `merge`) -/
-def _root_.DictIO.Op.isDictOp : Op → Bool
-  | .merge _ => false
-  | _ => true
-
-/-- no dict handed to the operation has a placeholder key at any dict level, and no key that is
-    set is a placeholder key -/
-def _root_.DictIO.Op.NoPh : Op → Prop
-  | .setitem k v => isPhKey k = false ∧ NoPhV v
-  | .setdefault k v => isPhKey k = false ∧ NoPhV v
-  | .update a => NoPhEs a.data
-  | .ior a => NoPhEs a.data
-  | .or a => NoPhEs a.data
-  | .merge a => NoPhEs a.data
-  | .ror o => NoPhEs o
-  | .construct o => NoPhEs o
-  | _ => True
-
-/-- every dict *inside* the arguments has unique keys (true of every Python value).  The item
-    sequence given to `update`/`|`/`merge`/the constructor may itself repeat a key (a pair list);
-    the left operand of `o | s` is a dict. -/
-def _root_.DictIO.Op.NodupKeys : Op → Prop
-  | .setitem _ v => NodupKeysV v
-  | .setdefault _ v => NodupKeysV v
-  | .update a => NodupKeysEs a.data
-  | .ior a => NodupKeysEs a.data
-  | .or a => NodupKeysEs a.data
-  | .merge a => NodupKeysEs a.data
-  | .ror o => NodupKeysV (.dict o)
-  | .construct o => NodupKeysEs o
-  | _ => True
-
 /-- **B1.** every non-merge operation of `SDict` does to the data exactly what the builtin `dict`
     operation does, and returns the same result, as long as no placeholder key is around
     (so that `_clean` has nothing to do).  `NodupKeysV`/`NodupKeys` (unique keys in every dict) are
@@ -535,7 +681,7 @@ theorem step_refines (s : SD) (op : Op) (hn : NodupKeysV (.dict s.data)) (hp : N
   | copy =>
     simp only [step, dstep]
     rw [clean_id _ (nodupV_updateD nodupV_nil hn.2) (noPhEs_updateD (t := []) (by simp [NoPhEs]) hp)]
-    exact ⟨rfl, rfl⟩
+    exact ⟨rfl, trivial⟩
   | update a =>
     simp only [step, dstep, update_eq s a (nodupV_updateD hn hon) (noPhEs_updateD hp hop), postUpdate_data]
     exact ⟨trivial, trivial⟩
@@ -559,5 +705,592 @@ theorem step_refines_needs_nodup :
     (by simp [NoPhEs, NoPhV, isPhKey]) rfl (by simp [Op.NoPh, Arg.data, NoPhEs])).1
   revert this
   decide
+
+
+/-- both invariants are kept by every operation, `merge` included -/
+theorem step_preserves (s : SD) (op : Op) (hn : NodupKeysV (.dict s.data)) (hp : NoPhEs s.data)
+    (hop : op.NoPh) (hon : op.NodupKeys) :
+    NodupKeysV (.dict (step s op).1.data) ∧ NoPhEs (step s op).1.data := by
+  cases op with
+  | setitem k v => exact ⟨nodupV_setKey hn hon, noPhEs_setKey hp hop.1 hop.2⟩
+  | delitem k =>
+    simp only [step]; split
+    · exact ⟨nodupV_delKey hn, noPhEs_delKey hp⟩
+    · exact ⟨hn, hp⟩
+  | pop k =>
+    simp only [step]; split
+    · exact ⟨nodupV_delKey hn, noPhEs_delKey hp⟩
+    · exact ⟨hn, hp⟩
+  | popDefault k =>
+    simp only [step]; split
+    · exact ⟨nodupV_delKey hn, noPhEs_delKey hp⟩
+    · exact ⟨hn, hp⟩
+  | setdefault k v =>
+    simp only [step]; split
+    · exact ⟨hn, hp⟩
+    · exact ⟨nodupV_setKey hn hon, noPhEs_setKey hp hop.1 hop.2⟩
+  | clear => exact ⟨nodupV_nil, trivial⟩
+  | construct o => exact ⟨nodupV_updateD nodupV_nil hon, noPhEs_updateD (t := []) trivial hop⟩
+  | copy =>
+    have h1 := nodupV_updateD nodupV_nil hn.2
+    have h2 := noPhEs_updateD (t := []) trivial hp
+    simp only [step]
+    rw [clean_id _ h1 h2]
+    exact ⟨h1, h2⟩
+  | update a =>
+    have h1 := nodupV_updateD hn hon
+    have h2 := noPhEs_updateD hp hop
+    simp only [step, update_eq s a h1 h2, postUpdate_data]
+    exact ⟨h1, h2⟩
+  | ior a =>
+    have h1 := nodupV_updateD hn hon
+    have h2 := noPhEs_updateD hp hop
+    simp only [step, update_eq s a h1 h2, postUpdate_data]
+    exact ⟨h1, h2⟩
+  | or a =>
+    have h1 := nodupV_updateD hn hon
+    have h2 := noPhEs_updateD hp hop
+    simp only [step, or_eq s a h1 h2, postUpdate_data]
+    exact ⟨h1, h2⟩
+  | ror o =>
+    have h1 := nodupV_updateD hon hn.2
+    have h2 := noPhEs_updateD hop hp
+    simp only [step, ror_eq s o h1 h2, postUpdate_data]
+    exact ⟨h1, h2⟩
+  | merge a =>
+    have h1 := nodupV_mergeD s.exprs true s.data a.data hn hon
+    have h2 := noPhEs_mergeD s.exprs true s.data a.data hp hop
+    simp only [step, merge_eq s a h1 h2, postMerge_data]
+    exact ⟨h1, h2⟩
+
+/-- **B2.** placeholder-freeness is an invariant of every operation (`merge` included) -/
+theorem step_preserves_noPh (s : SD) (op : Op) (hn : NodupKeysV (.dict s.data)) (hp : NoPhEs s.data)
+    (hop : op.NoPh) (hon : op.NodupKeys) : NoPhEs (step s op).1.data :=
+  (step_preserves s op hn hp hop hon).2
+
+/-- **B3.** key uniqueness, at the top level and in every nested dict, is an invariant of every
+    operation (`merge` included) -/
+theorem step_preserves_nodup (s : SD) (op : Op) (hn : NodupKeysV (.dict s.data)) (hp : NoPhEs s.data)
+    (hop : op.NoPh) (hon : op.NodupKeys) :
+    (keys (step s op).1.data).Nodup ∧ NodupKeysEs (step s op).1.data :=
+  (step_preserves s op hn hp hop hon).1
+
+/-- **B4.** any program of dict operations: same data after the whole program … -/
+theorem run_refines (ops : List Op) : ∀ (s : SD), NodupKeysV (.dict s.data) → NoPhEs s.data →
+    (∀ op ∈ ops, op.isDictOp = true ∧ op.NoPh ∧ op.NodupKeys) →
+    (ops.foldl (fun st op => (step st op).1) s).data = ops.foldl (fun d op => (dstep d op).1) s.data := by
+  induction ops with
+  | nil => intros; rfl
+  | cons op ops ih =>
+    intro s hn hp hops
+    obtain ⟨hd, hop, hon⟩ := hops op List.mem_cons_self
+    obtain ⟨hn', hp'⟩ := step_preserves s op hn hp hop hon
+    simp only [List.foldl_cons]
+    rw [ih (step s op).1 hn' hp' (fun o ho => hops o (List.mem_cons_of_mem _ ho)),
+      (step_refines s op hn hp hd hop hon).1]
+
+/-- … after every prefix of it … -/
+theorem run_refines_prefix (ops : List Op) (n : Nat) (s : SD) (hn : NodupKeysV (.dict s.data)) (hp : NoPhEs s.data)
+    (hops : ∀ op ∈ ops, op.isDictOp = true ∧ op.NoPh ∧ op.NodupKeys) :
+    ((ops.take n).foldl (fun st op => (step st op).1) s).data
+      = (ops.take n).foldl (fun d op => (dstep d op).1) s.data :=
+  run_refines (ops.take n) s hn hp fun op ho => hops op (List.mem_of_mem_take ho)
+
+/-- … and the whole trace (data and returned value / `KeyError` after each operation) coincides -/
+theorem run_refines_trace (ops : List Op) : ∀ (s : SD), NodupKeysV (.dict s.data) → NoPhEs s.data →
+    (∀ op ∈ ops, op.isDictOp = true ∧ op.NoPh ∧ op.NodupKeys) → runS s ops = runD s.data ops := by
+  induction ops with
+  | nil => intros; rfl
+  | cons op ops ih =>
+    intro s hn hp hops
+    obtain ⟨hd, hop, hon⟩ := hops op List.mem_cons_self
+    obtain ⟨hn', hp'⟩ := step_preserves s op hn hp hop hon
+    obtain ⟨h1, h2⟩ := step_refines s op hn hp hd hop hon
+    simp only [runS, runD]
+    rw [ih (step s op).1 hn' hp' (fun o ho => hops o (List.mem_cons_of_mem _ ho)), h1, h2]
+
+/-! ## C. merge algebra -/
+
+/-- **C1.** one-level characterisation of `_recursive_merge`: key by key, a dict on both sides is
+    merged recursively, an existing value stays (unless it is a top-level self-reference
+    placeholder), a new key gets `b`'s value -/
+theorem merge_lookup (top : Bool) (exprs : Tbl ExprEntry) (a b : Entries) (hb : (keys b).Nodup) (k : Key) :
+    lookup k (mergeD top exprs a b) =
+      match lookup k a, lookup k b with
+      | some (.dict ad), some (.dict bd) => some (.dict (mergeD false exprs ad bd))
+      | some av, some bv => if top && selfRef exprs k av then some bv else some av
+      | some av, none => some av
+      | none, bv => bv := by
+  rw [merge_lookup_mergeVal top exprs k b a hb]
+  rfl
+
+
+/-- **C2.** key order: the keys of `a` stay where they are, the new keys of `b` follow in `b`'s order -/
+theorem merge_keys (top : Bool) (exprs : Tbl ExprEntry) : ∀ (b a : Entries), (keys b).Nodup →
+    keys (mergeD top exprs a b) = keys a ++ (keys b).filter (fun k => !hasKey k a)
+  | [], a, _ => by rw [mergeD_nil]; simp [keys]
+  | (kb, vb) :: b, a, hb => by
+    have hb' : kb ∉ keys b ∧ (keys b).Nodup := List.nodup_cons.mp hb
+    rw [mergeD_cons, merge_keys top exprs b _ hb'.2, keys_mstep]
+    have hfilter : (keys b).filter (fun k => !hasKey k (mstep top exprs a kb vb))
+        = (keys b).filter (fun k => !hasKey k a) := by
+      apply List.filter_congr
+      intro k hk
+      have : ¬ kb = k := fun e => hb'.1 (e ▸ hk)
+      simp [hasKey_mstep, this]
+    rw [hfilter]
+    cases h : hasKey kb a <;> simp [keys, h]
+
+/-- **C3.** an existing non-dict value is never overwritten — except the documented case: at the
+    top level of an `SDict`, a value that refers to its own key is a placeholder.
+    (No uniqueness hypothesis on `b` is needed.) -/
+theorem merge_keeps (top : Bool) (exprs : Tbl ExprEntry) (k : Key) (v : Val) : ∀ (b a : Entries),
+    lookup k a = some v → v.isDict = false → ¬ (top = true ∧ selfRef exprs k v = true) →
+    lookup k (mergeD top exprs a b) = some v
+  | [], a, h, _, _ => by rw [mergeD_nil]; exact h
+  | (kb, vb) :: b, a, h, hv, hs => by
+    rw [mergeD_cons]
+    refine merge_keeps top exprs k v b _ ?_ hv hs
+    rw [lookup_mstep]
+    by_cases hk : kb = k
+    · subst hk
+      have hc : ¬ (top && selfRef exprs kb v) = true := by simpa using hs
+      simp only [if_true, h, mergeVal_some_some top exprs kb (Or.inl hv), hc]
+      rfl
+    · simp only [hk, if_false]; exact h
+
+/-- **C4.** the same at any depth: a non-dict value reachable in `a` by a key path through dicts is
+    still there after the merge.  Below the top level `_recursive_merge` runs with `top = false`, so
+    the self-reference exception can only concern a path of length one. -/
+theorem merge_keeps_deep (exprs : Tbl ExprEntry) (v : Val) (hv : v.isDict = false) : ∀ (p : List Key) (top : Bool) (a b : Entries),
+    getD a p = some v → (∀ k, p = [k] → ¬ (top = true ∧ selfRef exprs k v = true)) →
+    getD (mergeD top exprs a b) p = some v
+  | [], _, a, _, h, _ => by
+    simp only [getD, getV, Option.some.injEq] at h
+    subst h; simp [Val.isDict] at hv
+  | [k], top, a, b, h, hs => by
+    simp only [getD_cons, getV] at h ⊢
+    have ha : lookup k a = some v := by
+      cases hl : lookup k a with
+      | none => rw [hl] at h; simp at h
+      | some w => rw [hl] at h; simpa using h
+    rw [merge_keeps top exprs k v b a ha hv (hs k rfl)]
+  | k :: k' :: p, top, a, b, h, _ => by
+    -- the first key leads to a dict `sub`, and keeps doing so while `b` is merged item by item
+    obtain ⟨sub, hsub, hget⟩ : ∃ sub, lookup k a = some (.dict sub) ∧ getD sub (k' :: p) = some v := by
+      rw [getD_cons] at h
+      cases hl : lookup k a with
+      | none => rw [hl] at h; simp at h
+      | some w =>
+        rw [hl] at h
+        cases w with
+        | dict sub => exact ⟨sub, rfl, h⟩
+        | leaf x => simp [getV] at h
+        | list xs => simp [getV] at h
+    suffices H : ∀ (b a : Entries) (sub : Entries), lookup k a = some (.dict sub) → getD sub (k' :: p) = some v →
+        ∃ sub', lookup k (mergeD top exprs a b) = some (.dict sub') ∧ getD sub' (k' :: p) = some v by
+      obtain ⟨sub', h1, h2⟩ := H b a sub hsub hget
+      rw [getD_cons, h1]; exact h2
+    intro b
+    induction b with
+    | nil => intro a sub h1 h2; rw [mergeD_nil]; exact ⟨sub, h1, h2⟩
+    | cons e b ih =>
+      obtain ⟨kb, vb⟩ := e
+      intro a sub h1 h2
+      rw [mergeD_cons]
+      by_cases hk : kb = k
+      · subst hk
+        cases vb with
+        | dict od =>
+          refine ih _ (mergeD false exprs sub od) ?_ ?_
+          · rw [lookup_mstep]; simp only [if_true, h1, mergeVal_dict_dict]
+          · exact merge_keeps_deep exprs v hv (k' :: p) false sub od h2 (fun _ _ hc => by simp at hc)
+        | leaf x =>
+          refine ih _ sub ?_ h2
+          rw [lookup_mstep]
+          simp only [if_true, h1, mergeVal_some_some top exprs kb (av := .dict sub) (bv := .leaf x) (Or.inr rfl),
+            selfRef_dict, Bool.and_false]
+          rfl
+        | list xs =>
+          refine ih _ sub ?_ h2
+          rw [lookup_mstep]
+          simp only [if_true, h1, mergeVal_some_some top exprs kb (av := .dict sub) (bv := .list xs) (Or.inr rfl),
+            selfRef_dict, Bool.and_false]
+          rfl
+      · refine ih _ sub ?_ h2
+        rw [lookup_mstep]; simp only [hk, if_false]; exact h1
+
+/-- **C5.** a key that `a` does not have gets `b`'s value -/
+theorem merge_adds (top : Bool) (exprs : Tbl ExprEntry) (a b : Entries) (hb : (keys b).Nodup) (k : Key)
+    (h : lookup k a = none) : lookup k (mergeD top exprs a b) = lookup k b := by
+  rw [merge_lookup_mergeVal top exprs k b a hb, h]; rfl
+
+/-- **C6.** the documented exception: a top-level self-reference placeholder is filled from `b` -/
+theorem merge_fills_selfref (exprs : Tbl ExprEntry) (a b : Entries) (hb : (keys b).Nodup) (k : Key) (v w : Val)
+    (ha : lookup k a = some v) (hs : selfRef exprs k v = true) (hw : lookup k b = some w)
+    (hnd : v.isDict = false ∨ w.isDict = false) :
+    lookup k (mergeD true exprs a b) = some w := by
+  rw [merge_lookup_mergeVal true exprs k b a hb, ha, hw, mergeVal_some_some true exprs k hnd]
+  simp [hs]
+
+/-- (the side condition of `merge_fills_selfref` is automatic: a self-reference is a string) -/
+theorem merge_fills_selfref' (exprs : Tbl ExprEntry) (a b : Entries) (hb : (keys b).Nodup) (k : Key) (v w : Val)
+    (ha : lookup k a = some v) (hs : selfRef exprs k v = true) (hw : lookup k b = some w) :
+    lookup k (mergeD true exprs a b) = some w :=
+  merge_fills_selfref exprs a b hb k v w ha hs hw (Or.inl (selfRef_isDict hs))
+
+/-! #### idempotence -/
+
+mutual
+  /-- merging a dict into itself changes nothing -/
+  theorem merge_selfV (exprs : Tbl ExprEntry) : ∀ v : Val, NodupKeysV v → ∀ od, v = .dict od → mergeD false exprs od od = od
+    | .leaf _, _, _, h => by cases h
+    | .list _, _, _, h => by cases h
+    | .dict es, hn, od, h => by
+      cases h
+      apply mergeD_absorb
+      intro e he
+      refine ⟨e.2, lookup_of_mem_nodup hn.1 he, ?_, fun h => by cases h⟩
+      intro td od' h1 h2
+      have := merge_selfEs exprs es hn.2 e he od' h2
+      rw [h1] at h2; cases h2; exact this
+  theorem merge_selfEs (exprs : Tbl ExprEntry) : ∀ es : Entries, NodupKeysEs es → ∀ e ∈ es, ∀ od, e.2 = .dict od → mergeD false exprs od od = od
+    | [], _, e, he, _, _ => by simp at he
+    | (k, v) :: es, hn, e, he, od, h => by
+      rcases List.mem_cons.mp he with rfl | hm
+      · exact merge_selfV exprs v hn.1 od h
+      · exact merge_selfEs exprs es hn.2 e hm od h
+end
+
+/-- **C8.** `merge` of a dict into itself is a no-op -/
+theorem merge_noop_self (exprs : Tbl ExprEntry) (a : Entries) (hn : NodupKeysV (.dict a)) :
+    mergeD false exprs a a = a := merge_selfV exprs (.dict a) hn a rfl
+
+
+/-- one level of the idempotence proof, given idempotence for the dicts nested in `b` -/
+theorem merge_idem_core (top : Bool) (exprs : Tbl ExprEntry) (a b : Entries) (hb : (keys b).Nodup)
+    (hsub : ∀ e ∈ b, ∀ bd, e.2 = .dict bd →
+      (∀ ad, mergeD false exprs (mergeD false exprs ad bd) bd = mergeD false exprs ad bd) ∧
+      mergeD false exprs bd bd = bd) :
+    mergeD top exprs (mergeD top exprs a b) b = mergeD top exprs a b := by
+  apply mergeD_absorb
+  intro e he
+  obtain ⟨k, v⟩ := e
+  dsimp only
+  have hlb : lookup k b = some v := lookup_of_mem_nodup hb he
+  rw [merge_lookup_mergeVal top exprs k b a hb, hlb]
+  have hself : ∀ td od, v = .dict td → v = .dict od → mergeD false exprs td od = td := by
+    intro td od h1 h2
+    rw [h1] at h2; cases h2
+    exact (hsub (k, v) he td h1).2
+  cases hla : lookup k a with
+  | none => exact ⟨v, rfl, hself, fun _ _ => rfl⟩
+  | some av =>
+    by_cases hnd : av.isDict = false ∨ v.isDict = false
+    · rw [mergeVal_some_some top exprs k hnd]
+      by_cases hc : (top && selfRef exprs k av) = true
+      · simp only [hc, if_true]
+        exact ⟨v, rfl, hself, fun _ _ => rfl⟩
+      · simp only [hc]
+        refine ⟨av, rfl, ?_, ?_⟩
+        · intro td od h1 h2
+          rw [h1, h2] at hnd; simp [Val.isDict] at hnd
+        · intro h1 h2
+          rw [h1, h2] at hc; simp at hc
+    · cases av with
+      | dict ad =>
+        cases v with
+        | dict bd =>
+          rw [mergeVal_dict_dict]
+          refine ⟨_, rfl, ?_, ?_⟩
+          · intro td od h1 h2
+            cases h1; cases h2
+            exact (hsub (k, .dict bd) he bd rfl).1 ad
+          · intro _ h2; rw [selfRef_dict] at h2; exact absurd h2 (by decide)
+        | _ => simp [Val.isDict] at hnd
+      | _ => simp [Val.isDict] at hnd
+
+mutual
+  theorem merge_idemV (exprs : Tbl ExprEntry) : ∀ v : Val, NodupKeysV v → ∀ bd, v = .dict bd →
+      ∀ ad, mergeD false exprs (mergeD false exprs ad bd) bd = mergeD false exprs ad bd
+    | .leaf _, _, _, h => by cases h
+    | .list _, _, _, h => by cases h
+    | .dict es, hn, bd, h => by
+      cases h
+      intro ad
+      apply merge_idem_core false exprs ad es hn.1
+      intro e he bd' h'
+      exact ⟨merge_idemEs exprs es hn.2 e he bd' h', merge_selfEs exprs es hn.2 e he bd' h'⟩
+  theorem merge_idemEs (exprs : Tbl ExprEntry) : ∀ es : Entries, NodupKeysEs es → ∀ e ∈ es, ∀ bd, e.2 = .dict bd →
+      ∀ ad, mergeD false exprs (mergeD false exprs ad bd) bd = mergeD false exprs ad bd
+    | [], _, e, he, _, _ => by simp at he
+    | (k, v) :: es, hn, e, he, bd, h => by
+      rcases List.mem_cons.mp he with rfl | hm
+      · exact merge_idemV exprs v hn.1 bd h
+      · exact merge_idemEs exprs es hn.2 e hm bd h
+end
+
+/-- **C7.** merging the same dict a second time changes nothing (`b` with unique keys at every level) -/
+theorem merge_idem (exprs : Tbl ExprEntry) (a b : Entries) (hb : NodupKeysV (.dict b)) :
+    mergeD false exprs (mergeD false exprs a b) b = mergeD false exprs a b :=
+  merge_idemV exprs (.dict b) hb b rfl a
+
+/-- **C7'.** the same for the outermost call on an `SDict` (`top = true`): a filled self-reference
+    placeholder is at worst re-filled with the same value -/
+theorem merge_idem_top (exprs : Tbl ExprEntry) (a b : Entries) (hb : NodupKeysV (.dict b)) :
+    mergeD true exprs (mergeD true exprs a b) b = mergeD true exprs a b := by
+  apply merge_idem_core true exprs a b hb.1
+  intro e he bd h
+  exact ⟨merge_idemEs exprs b hb.2 e he bd h, merge_selfEs exprs b hb.2 e he bd h⟩
+
+/-! #### the id-keyed side tables -/
+
+/-- **C9a.** table merge: an id already in the table keeps its entry -/
+theorem tbl_merge_keeps {α} (i : Nat) (x : α) : ∀ (o t : Tbl α),
+    Tbl.get? i t = some x → Tbl.get? i (Tbl.merge t o) = some x
+  | [], _, h => h
+  | (j, a) :: o, t, h => by
+    rw [tbl_merge_cons]
+    apply tbl_merge_keeps i x o
+    split
+    · exact h
+    · rw [tbl_get_append, h]; rfl
+
+/-- **C9b.** table merge: a new id gets the (first) entry of the other table.
+    (Stronger than asked: no uniqueness of the ids of `o` is needed, the first entry wins on both sides.) -/
+theorem tbl_merge_adds {α} (i : Nat) : ∀ (o t : Tbl α),
+    Tbl.get? i t = none → Tbl.get? i (Tbl.merge t o) = Tbl.get? i o
+  | [], _, h => h
+  | (j, a) :: o, t, h => by
+    rw [tbl_merge_cons]
+    by_cases hj : j = i
+    · subst hj
+      simp only [h, Option.isSome_none, Bool.false_eq_true, if_false, Tbl.get?, if_true]
+      exact tbl_merge_keeps j a o _ (by rw [tbl_get_append, h]; simp)
+    · have hnone : Tbl.get? i (if (Tbl.get? (j, a).1 t).isSome then t else t ++ [(j, a)]) = none := by
+        split
+        · exact h
+        · rw [tbl_get_append, h]; simp [hj]
+      rw [tbl_merge_adds i o _ hnone]
+      simp [Tbl.get?, hj]
+
+/-- **C9c.** table update: the other table's entry wins (ids of `o` unique, as in any Python dict) -/
+theorem tbl_update_overrides {α} (i : Nat) : ∀ (o t : Tbl α), (o.map (·.1)).Nodup →
+    Tbl.get? i (Tbl.update t o) = (Tbl.get? i o).or (Tbl.get? i t)
+  | [], _, _ => by simp [Tbl.update, Tbl.get?]
+  | (j, a) :: o, t, hn => by
+    have hn' := List.nodup_cons.mp hn
+    rw [tbl_update_cons, tbl_update_overrides i o _ hn'.2, tbl_get_set]
+    by_cases hj : j = i
+    · subst hj
+      have : Tbl.get? j o = none := by
+        have hnot := hn'.1
+        clear hn hn'
+        induction o with
+        | nil => rfl
+        | cons e o ih =>
+          simp only [List.map_cons, List.mem_cons, not_or] at hnot
+          have : ¬ e.1 = j := fun h => hnot.1 h.symm
+          simp [Tbl.get?, this, ih hnot.2]
+      simp [Tbl.get?, this]
+    · simp [Tbl.get?, hj]
+
+/-- without uniqueness: the *last* entry of `o` for an id wins -/
+theorem tbl_update_overrides_last {α} (i : Nat) : ∀ (o t : Tbl α),
+    Tbl.get? i (Tbl.update t o) = (Tbl.get? i o.reverse).or (Tbl.get? i t)
+  | [], _ => by simp [Tbl.update, Tbl.get?]
+  | (j, a) :: o, t => by
+    rw [tbl_update_cons, tbl_update_overrides_last i o, tbl_get_set, List.reverse_cons, tbl_get_append]
+    cases Tbl.get? i o.reverse <;> by_cases hj : j = i <;> simp [hj]
+
+/-- **C10.** `merge` with an `SDict` argument merges the four tables (existing ids keep their
+    entry), provided the merged data has no placeholder key for `_clean` to act on -/
+theorem merge_tables (s m : SD) (hp : NoPhEs (mergeD true s.exprs s.data m.data)) :
+    (s.merge (.sd m)).exprs = Tbl.merge s.exprs m.exprs ∧
+    (s.merge (.sd m)).lineC = Tbl.merge s.lineC m.lineC ∧
+    (s.merge (.sd m)).blockC = Tbl.merge s.blockC m.blockC ∧
+    (s.merge (.sd m)).incl = Tbl.merge s.incl m.incl := by
+  unfold SD.merge
+  exact clean_tables _ (by rw [postMerge_data]; exact hp)
+
+/-- the hypothesis of `merge_tables` follows from the same fact about the two operands; with
+    unique keys the data is the merged data as well -/
+theorem merge_tables' (s m : SD) (hn : NodupKeysV (.dict s.data)) (hp : NoPhEs s.data)
+    (hmn : NodupKeysEs m.data) (hmp : NoPhEs m.data) :
+    (s.merge (.sd m)).exprs = Tbl.merge s.exprs m.exprs ∧
+    (s.merge (.sd m)).lineC = Tbl.merge s.lineC m.lineC ∧
+    (s.merge (.sd m)).blockC = Tbl.merge s.blockC m.blockC ∧
+    (s.merge (.sd m)).incl = Tbl.merge s.incl m.incl ∧
+    (s.merge (.sd m)).data = mergeD true s.exprs s.data m.data := by
+  have h2 := noPhEs_mergeD s.exprs true s.data m.data hp hmp
+  obtain ⟨a, b, c, d⟩ := merge_tables s m h2
+  refine ⟨a, b, c, d, ?_⟩
+  rw [merge_eq s (.sd m) (nodupV_mergeD s.exprs true s.data m.data hn hmn) h2]; rfl
+
+/-- merging a plain mapping leaves the tables alone -/
+theorem merge_tables_plain (s : SD) (o : Entries)
+    (hn : NodupKeysV (.dict (mergeD true s.exprs s.data o))) (hp : NoPhEs (mergeD true s.exprs s.data o)) :
+    s.merge (.plain o) = { s with data := mergeD true s.exprs s.data o } := by
+  rw [merge_eq s (.plain o) hn hp]; rfl
+
+/-- **C11.** `update` with an `SDict` argument updates the four tables (the argument's entries win) -/
+theorem update_tables (s m : SD) (hp : NoPhEs (updateD s.data m.data)) :
+    (s.update (.sd m)).exprs = Tbl.update s.exprs m.exprs ∧
+    (s.update (.sd m)).lineC = Tbl.update s.lineC m.lineC ∧
+    (s.update (.sd m)).blockC = Tbl.update s.blockC m.blockC ∧
+    (s.update (.sd m)).incl = Tbl.update s.incl m.incl := by
+  unfold SD.update
+  exact clean_tables _ (by rw [postUpdate_data]; exact hp)
+
+theorem update_tables' (s m : SD) (hn : NodupKeysV (.dict s.data)) (hp : NoPhEs s.data)
+    (hmn : NodupKeysEs m.data) (hmp : NoPhEs m.data) :
+    (s.update (.sd m)).exprs = Tbl.update s.exprs m.exprs ∧
+    (s.update (.sd m)).lineC = Tbl.update s.lineC m.lineC ∧
+    (s.update (.sd m)).blockC = Tbl.update s.blockC m.blockC ∧
+    (s.update (.sd m)).incl = Tbl.update s.incl m.incl ∧
+    (s.update (.sd m)).data = updateD s.data m.data := by
+  have h2 := noPhEs_updateD hp hmp
+  obtain ⟨a, b, c, d⟩ := update_tables s m h2
+  refine ⟨a, b, c, d, ?_⟩
+  rw [update_eq s (.sd m) (nodupV_updateD hn hmn) h2]; rfl
+
+/-! ## D. non-vacuity: the hypotheses are satisfiable and the theorems say something -/
+
+section examples
+
+private def sk (s : String) : Key := .str s.toList
+private def sv (s : String) : Val := .leaf (.str s.toList)
+private def iv (z : Int) : Val := .leaf (.int z)
+
+/-- `{a: "banana", d: {x: 1}}` -/
+private def exA : Entries := [(sk "a", sv "banana"), (sk "d", .dict [(sk "x", iv 1)])]
+/-- `{a: 1, d: {x: 2, y: 3}, n: 5}` -/
+private def exB : Entries := [(sk "a", iv 1), (sk "d", .dict [(sk "x", iv 2), (sk "y", iv 3)]), (sk "n", iv 5)]
+/-- `{a: "banana", d: {x: 1, y: 3}, n: 5}` -/
+private def exAB : Entries := [(sk "a", sv "banana"), (sk "d", .dict [(sk "x", iv 1), (sk "y", iv 3)]), (sk "n", iv 5)]
+
+private theorem sk_inj (a b : String) : sk a = sk b ↔ a = b := by simp [sk, String.toList_inj]
+
+private theorem exA_nodup : NodupKeysV (.dict exA) := by
+  simp [exA, NodupKeysV, NodupKeysEs, keys, sk_inj, sv, iv]
+private theorem exB_nodup : NodupKeysV (.dict exB) := by
+  simp [exB, NodupKeysV, NodupKeysEs, keys, sk_inj, iv]
+private theorem exA_noPh : NoPhEs exA := by
+  simp only [exA, NoPhEs, NoPhV, sv, iv]; decide
+private theorem exB_noPh : NoPhEs exB := by
+  simp only [exB, NoPhEs, NoPhV, iv]; decide
+
+/-- the merge of the task's example, computed -/
+example : mergeD false [] exA exB = exAB := by
+  simp [exA, exB, exAB, mergeD_cons, mergeD_nil, mstep, lookup, setKey, sk_inj, sv, iv]
+
+/-- … also as the outermost call on an `SDict` ("banana" does not refer to `$a`) -/
+example : mergeD true [] exA exB = exAB := by
+  have h : selfRef [] (sk "a") (sv "banana") = false := by decide
+  simp only [sv] at h; simp at h
+  simp [exA, exB, exAB, mergeD_cons, mergeD_nil, mstep, lookup, setKey, sk_inj, h, sv, iv]
+
+/-- `{v: "$v+1", w: 0}`: `v` is a self-reference placeholder -/
+private def exC : Entries := [(sk "v", sv "$v+1"), (sk "w", iv 0)]
+/-- `{v: 7, w: 8}` -/
+private def exD : Entries := [(sk "v", iv 7), (sk "w", iv 8)]
+
+set_option maxRecDepth 10000 in
+private theorem exC_selfRef : selfRef [] (sk "v") (sv "$v+1") = true := by decide
+
+private theorem exC_nodup : NodupKeysV (.dict exC) := by
+  simp [exC, NodupKeysV, NodupKeysEs, keys, sk_inj, sv, iv]
+private theorem exD_nodup : NodupKeysV (.dict exD) := by
+  simp [exD, NodupKeysV, NodupKeysEs, keys, sk_inj, iv]
+private theorem exC_noPh : NoPhEs exC := by
+  simp only [exC, NoPhEs, NoPhV, sv, iv]; decide
+private theorem exD_noPh : NoPhEs exD := by
+  simp only [exD, NoPhEs, NoPhV, iv]; decide
+
+/-- `clean_id` applies to a dict with nesting and a non-empty table -/
+example : ({ data := exA, lineC := [(1, "// c".toList)] } : SD).clean = { data := exA, lineC := [(1, "// c".toList)] } :=
+  clean_id _ exA_nodup exA_noPh
+
+/-- `step_refines` applies to `update`, and the result is what builtin `dict.update` gives -/
+example : (step { data := exA } (.update (.plain exB))).1.data = updateD exA exB :=
+  (step_refines { data := exA } (.update (.plain exB)) exA_nodup exA_noPh rfl exB_noPh exB_nodup.2).1
+example : updateD exA exB = exB := by decide
+
+/-- `run_refines_trace` applies to a program that sets, pops, updates, copies and hits a `KeyError` -/
+example : runS { data := exA } [.setitem (sk "z") (iv 9), .pop (sk "a"), .update (.plain exB), .copy, .delitem (sk "q")]
+    = runD exA [.setitem (sk "z") (iv 9), .pop (sk "a"), .update (.plain exB), .copy, .delitem (sk "q")] := by
+  apply run_refines_trace _ _ exA_nodup exA_noPh
+  intro op hop
+  simp only [List.mem_cons, List.not_mem_nil, or_false] at hop
+  rcases hop with rfl | rfl | rfl | rfl | rfl
+  · exact ⟨rfl, ⟨by decide, trivial⟩, trivial⟩
+  · exact ⟨rfl, trivial, trivial⟩
+  · exact ⟨rfl, exB_noPh, exB_nodup.2⟩
+  · exact ⟨rfl, trivial, trivial⟩
+  · exact ⟨rfl, trivial, trivial⟩
+example : (runD exA [.setitem (sk "z") (iv 9), .pop (sk "a"), .update (.plain exB), .copy, .delitem (sk "q")]).map (·.2)
+    = [.unit, .val (sv "banana"), .unit, .unit, .keyError] := by rfl
+
+/-- `merge_keeps`: "banana" survives the merge of `{a: 1, …}` -/
+example : lookup (sk "a") (mergeD true [] exA exB) = some (sv "banana") :=
+  merge_keeps true [] (sk "a") (sv "banana") exB exA (by decide) rfl (by decide)
+
+/-- `merge_keeps_deep`: so does `d.x = 1` -/
+example : getD (mergeD true [] exA exB) [sk "d", sk "x"] = some (iv 1) :=
+  merge_keeps_deep [] (iv 1) rfl [sk "d", sk "x"] true exA exB (by decide) (by intro k h; cases h)
+
+/-- `merge_keys`: key order of the merged dict -/
+example : keys (mergeD true [] exA exB) = [sk "a", sk "d", sk "n"] := by
+  rw [merge_keys true [] exB exA exB_nodup.1]; decide
+
+/-- `merge_fills_selfref`: the placeholder `v: "$v+1"` is filled, the ordinary `w: 0` is kept -/
+example : lookup (sk "v") (mergeD true [] exC exD) = some (iv 7) :=
+  merge_fills_selfref [] exC exD exD_nodup.1 (sk "v") (sv "$v+1") (iv 7) (by decide) exC_selfRef (by decide) (Or.inl rfl)
+example : lookup (sk "w") (mergeD true [] exC exD) = some (iv 0) :=
+  merge_keeps true [] (sk "w") (iv 0) exD exC (by decide) rfl (by decide)
+/-- … but only at the top level of an `SDict` -/
+example : lookup (sk "v") (mergeD false [] exC exD) = some (sv "$v+1") :=
+  merge_keeps false [] (sk "v") (sv "$v+1") exD exC (by decide) rfl (by decide)
+
+/-- `merge_idem`, `merge_idem_top` instantiated -/
+example : mergeD false [] (mergeD false [] exA exB) exB = mergeD false [] exA exB := merge_idem [] exA exB exB_nodup
+example : mergeD true [] (mergeD true [] exC exD) exD = mergeD true [] exC exD := merge_idem_top [] exC exD exD_nodup
+
+/-- `merge_tables'`: existing ids keep their text, new ids are added -/
+example : (({ data := exC, lineC := [(1, "// a".toList)] } : SD).merge
+      (.sd { data := exD, lineC := [(1, "// b".toList), (2, "// c".toList)] })).lineC
+    = [(1, "// a".toList), (2, "// c".toList)] := by
+  rw [(merge_tables' _ _ exC_nodup exC_noPh exD_nodup.2 exD_noPh).2.1]; decide
+
+/-- `update_tables'`: the argument's text wins -/
+example : (({ data := exC, lineC := [(1, "// a".toList)] } : SD).update
+      (.sd { data := exD, lineC := [(1, "// b".toList), (2, "// c".toList)] })).lineC
+    = [(1, "// b".toList), (2, "// c".toList)] := by
+  rw [(update_tables' _ _ exC_nodup exC_noPh exD_nodup.2 exD_noPh).2.1]; decide
+
+end examples
+
+/-! #### the uniqueness hypotheses on `b` are needed (a pair list may repeat a key; a dict cannot) -/
+
+theorem merge_keys_needs_nodup :
+    ¬ ∀ (top : Bool) (exprs : Tbl ExprEntry) (b a : Entries),
+      keys (mergeD top exprs a b) = keys a ++ (keys b).filter (fun k => !hasKey k a) := by
+  intro h
+  have := h false [] [(.int 1, .leaf .none), (.int 1, .leaf .none)] []
+  simp [mergeD_cons, mergeD_nil, mstep, lookup, keys, hasKey] at this
+
+theorem merge_adds_needs_nodup :
+    ¬ ∀ (top : Bool) (exprs : Tbl ExprEntry) (a b : Entries) (k : Key),
+      lookup k a = none → lookup k (mergeD top exprs a b) = lookup k b := by
+  intro h
+  have := h false [] [] [(.int 1, .dict [(.int 2, .leaf .none)]), (.int 1, .dict [(.int 3, .leaf .none)])] (.int 1) rfl
+  simp [mergeD_cons, mergeD_nil, mstep, lookup, setKey] at this
+
+theorem tbl_update_overrides_needs_nodup :
+    ¬ ∀ (i : Nat) (o t : Tbl Nat), Tbl.get? i (Tbl.update t o) = (Tbl.get? i o).or (Tbl.get? i t) := by
+  intro h
+  have := h 1 [(1, 10), (1, 20)] []
+  revert this; decide
+
 
 end DictIO.C07
